@@ -1236,10 +1236,20 @@ func ruleRecordOrigin(r *Run) {
 		if lifted == nil {
 			continue
 		}
+		// every exit that can report a record (anything but a constant `false`) is past the write
 		all := true
 		for _, ret := range returnsOf(nx) {
-			if !instrDominates(lifted, ret) {
-				all = false
+			for _, lp := range phiLeavesWithPred(ret.Results[0], ret.Block()) {
+				if isConstBool(lp.V, false) {
+					continue
+				}
+				if lp.Pred != nil {
+					if !lifted.Block().Dominates(lp.Pred) {
+						all = false
+					}
+				} else if !instrDominates(lifted, ret) {
+					all = false
+				}
 			}
 		}
 		if all {
@@ -1248,7 +1258,7 @@ func ruleRecordOrigin(r *Run) {
 	}
 	if !must {
 		bad = true
-		o.Fail(r.pos(nx.Pos()), "no unconditional write of the record's ResourceAttrs in Next (%d write(s) found)", len(writes))
+		o.Fail(r.pos(nx.Pos()), "Next can report a record on a path that does not write the record's ResourceAttrs (%d write(s) found)", len(writes))
 	}
 	if !bad {
 		o.OK("ParseLog keeps resource; Next writes ResourceAttrs = i.resource on every path").At(r.pos(nx.Pos()))
